@@ -692,7 +692,9 @@ def c07(run):
 def sany():
     bad = 0
     for f in sorted(glob.glob(os.path.join(SPEC, "*.tla"))):
-        p = subprocess.run(["java", "-cp", core.JAR, "tla2sany.SANY", os.path.basename(f)], cwd=SPEC,
+        # the two proof modules extend TLAPS / NaturalsInduction, which live in tlapm's library
+        p = subprocess.run(["java", "-DTLA-Library=/opt/veriftools/tlapm/lib/tlapm/stdlib", "-cp", core.JAR,
+                            "tla2sany.SANY", os.path.basename(f)], cwd=SPEC,
                            stdout=subprocess.PIPE, stderr=subprocess.STDOUT, text=True)
         ok = p.returncode == 0 and "error" not in p.stdout.lower().replace("errors: 0", "")
         log("[sany] %s %s" % (os.path.basename(f), "ok" if ok else "FAILED"))
